@@ -71,6 +71,8 @@ func cmdRaceWork(args []string) int {
 			raceLockMap(s)
 		case n%2 == 0:
 			raceBT(s)
+		case n%6 == 1:
+			raceGCSCopy(s)
 		default:
 			raceGCS(s)
 		}
@@ -253,6 +255,85 @@ func raceBT(seed int64) {
 						w.MutateRows(tbl, []entryIn{{Key: key, Muts: mutList{setCell("f2", "m", 1000, "z")}}, {Key: "r001", Muts: mutList{setCell("nofam", "m", 1000, "z")}}})
 					}
 				})
+			}
+		}()
+	}
+	wg.Wait()
+}
+
+// raceGCSCopy: one object overwritten continuously (each version carries its tag in the content
+// type, in a large user-metadata map and in its bytes) while other goroutines copy it to fresh
+// names: every copy must be one version, never the attributes of one with the bytes of another.
+func raceGCSCopy(seed int64) {
+	rng := rand.New(rand.NewSource(seed))
+	var st gcsemu.Store
+	if rng.Intn(3) != 0 {
+		st = gcsemu.NewMemStore()
+	} else {
+		dir := scratchDir("gcs-race-")
+		defer os.RemoveAll(dir)
+		st = gcsemu.NewFileStore(dir)
+	}
+	emu := gcsemu.NewGcsEmu(gcsemu.Options{Store: st})
+	mux := http.NewServeMux()
+	emu.Register(mux)
+	do := func(method, path string, q url.Values, hdr map[string]string, body []byte) *httptest.ResponseRecorder {
+		target := path
+		if len(q) > 0 {
+			target += "?" + q.Encode()
+		}
+		req := httptest.NewRequest(method, "http://gcs.test"+target, bytes.NewReader(body))
+		for k, v := range hdr {
+			req.Header.Set(k, v)
+		}
+		rec := httptest.NewRecorder()
+		quiet(func() { mux.ServeHTTP(rec, req) })
+		return rec
+	}
+	do("POST", "/storage/v1/b", url.Values{"project": {"p"}}, map[string]string{"Content-Type": "application/json"}, []byte(`{"name":"bkt"}`))
+	upload := func(tag string) {
+		md := map[string]string{}
+		for k := 0; k < 200; k++ {
+			md[fmt.Sprintf("k%03d", k)] = tag
+		}
+		meta, _ := json.Marshal(map[string]interface{}{"name": "hot", "contentType": "text/x-" + tag, "metadata": md})
+		var b bytes.Buffer
+		fmt.Fprintf(&b, "--bnd\r\nContent-Type: application/json\r\n\r\n%s\r\n--bnd\r\nContent-Type: text/x-%s\r\n\r\ncontent-%s\r\n--bnd--\r\n", meta, tag, tag)
+		do("POST", "/upload/storage/v1/b/bkt/o", url.Values{"uploadType": {"multipart"}}, map[string]string{"Content-Type": "multipart/related; boundary=bnd"}, b.Bytes())
+	}
+	upload("v0")
+	var wg sync.WaitGroup
+	var stop int32
+	wg.Add(1)
+	go func() {
+		defer wg.Done()
+		for i := 1; i <= 40; i++ {
+			upload(fmt.Sprintf("v%d", i))
+		}
+		atomic.StoreInt32(&stop, 1)
+	}()
+	for g := 0; g < 3; g++ {
+		g := g
+		wg.Add(1)
+		go func() {
+			defer wg.Done()
+			for i := 0; atomic.LoadInt32(&stop) == 0 && i < 2000; i++ {
+				rec := do("POST", "/storage/v1/b/bkt/o/hot/rewriteTo/b/bkt/o/"+fmt.Sprintf("cp-%d-%d", g, i), nil, nil, nil)
+				var rr struct {
+					Resource struct {
+						ContentType string            `json:"contentType"`
+						Md5Hash     string            `json:"md5Hash"`
+						Metadata    map[string]string `json:"metadata"`
+					} `json:"resource"`
+				}
+				if rec.Code != 200 || json.Unmarshal(rec.Body.Bytes(), &rr) != nil || !strings.HasPrefix(rr.Resource.ContentType, "text/x-v") {
+					continue
+				}
+				tag := strings.TrimPrefix(rr.Resource.ContentType, "text/x-")
+				if rr.Resource.Md5Hash != md5b64([]byte("content-"+tag)) || rr.Resource.Metadata["k000"] != tag || rr.Resource.Metadata["k199"] != tag {
+					raceFail("a copy of an object that is being overwritten carries contentType %q, metadata of %q/%q and md5Hash %s: a mixture of two versions", rr.Resource.ContentType, rr.Resource.Metadata["k000"], rr.Resource.Metadata["k199"], rr.Resource.Md5Hash)
+					return
+				}
 			}
 		}()
 	}
